@@ -46,6 +46,17 @@ func (c *FnCtx) special(frame *Frame, st *State, in ssa.Instruction, call *ssa.C
 			return true
 		}
 	}
+	if key == "sort.Reverse" && len(args) == 1 {
+		// the reversed view sorts the same underlying data (order is not modelled)
+		k(st, args[0])
+		return true
+	}
+	if key == "sort.Sort" || key == "sort.Stable" {
+		if c.sortInterface(st, args) {
+			k(st, Val{K: KTuple})
+			return true
+		}
+	}
 	if strings.HasPrefix(key, "sync.Locker.") || strings.HasPrefix(key, "sync.Cond.") {
 		if c.lockerCall(frame, st, in, call, key) {
 			k(st, Val{K: KTuple})
@@ -329,6 +340,9 @@ func (c *FnCtx) havocGuarded(st *State, li *LockInv, obj string) {
 			c.store(st, a, nv)
 			fv = nv
 		}
+		if li.RefOnly[g] {
+			continue
+		}
 		// contents of containers held in the field
 		switch t := ft.Underlying().(type) {
 		case *types.Map:
@@ -380,6 +394,9 @@ func (c *FnCtx) havocGuardedByCall(st *State, call *ssa.CallCommon) {
 			for _, lf := range leavesOf(ft) {
 				c.heapHavoc(st, arrName("F", key, joinPath(path, lf.Path), lf.Sort))
 			}
+		}
+		if li.RefOnly[g] {
+			continue
 		}
 		if mt, ok := ft.Underlying().(*types.Map); ok {
 			mk := mapKeyOf(ft)
@@ -447,6 +464,9 @@ func (c *FnCtx) interferenceHeap(env *SpecEnv) map[string]string {
 				for _, lf := range leavesOf(ft) {
 					hv(arrName("F", key, joinPath(path, lf.Path), lf.Sort))
 				}
+			}
+			if li.RefOnly[g] {
+				continue
 			}
 			if mt, ok := ft.Underlying().(*types.Map); ok {
 				mk := mapKeyOf(ft)
